@@ -43,21 +43,33 @@ def entityRowOk (row : Nat × Nat) : Bool :=
   decodeCps .text repl == decodeCps .text ref && decodeCps .attr repl == decodeCps .attr ref &&
   decide (repl.length ≤ ref.length) && selfContained repl
 
-/-- row `(c, esc)` of `html.TextRevEntitiesMap` -/
-def textRevRowOk (row : Nat × Nat) : Bool :=
-  match unpack row.1 with
-  | [c] => decodeCps .text (unpack row.2) == [c] && !(unpack row.2).contains 60 && c != cAmp
-  | _ => false
+/-- printable ASCII other than `<`: bytes the input-stream preprocessing and the tokenizer leave alone -/
+def plainByte (b : Nat) : Bool := 32 ≤ b && b < 127 && b != 60
+
+/-- row `(c, esc)` of `html.TextRevEntitiesMap` (`ctx = .text`) / `html.AttrRevEntitiesMap` (`ctx = .attr`):
+    `esc` is written when a reference decoded to the byte `c`; it must decode to what a reference to `c` decodes to
+    (`numericFix c`: U+FFFD for NUL, `c` itself for the other ASCII bytes) and consist of plain bytes -/
+def htmlRevRowOk (ctx : Ctx) (row : Nat × Nat) : Bool :=
+  decide (row.1 < 128) && decodeCps ctx (unpack row.2) == [numericFix row.1] && (unpack row.2).all plainByte
+
+/-- … and the row is needed: the literal byte would *not* be read back as that text -/
+def htmlRevRowNeeded (ctx : Ctx) (row : Nat × Nat) : Bool :=
+  literalCps ctx row.1 != some [numericFix row.1]
 
 /-- row `(name, repl)` of `xml.EntitiesMap` -/
 def xmlEntityRowOk (row : Nat × Nat) : Bool :=
   decodeXmlCps (unpack row.2) == decodeXmlCps (refOf row.1) && (decodeXmlCps (refOf row.1)).isSome &&
   decide ((unpack row.2).length ≤ (refOf row.1).length)
 
-/-- row `(c, esc)` of `xml.TextRevEntitiesMap` -/
-def xmlTextRevRowOk (row : Nat × Nat) : Bool :=
-  decodeXmlCps (unpack row.2) == some (unpack row.1) && (unpack row.1).length == 1 &&
-  !(unpack row.2).contains 60
+/-- row `(c, esc)` of `xml.TextRevEntitiesMap` / `xml.AttrRevEntitiesMap`: `esc` is a well-formed reference to
+    exactly the character `c` and consists of plain bytes -/
+def xmlRevRowOk (row : Nat × Nat) : Bool :=
+  decide (row.1 < 128) && xmlChar row.1 && decodeXmlCps (unpack row.2) == some [row.1] &&
+  (unpack row.2).all plainByte
+
+/-- … and the row is needed: the literal byte would not be read back as `c` (`attr`: in an attribute value) -/
+def xmlRevRowNeeded (attr : Bool) (row : Nat × Nat) : Bool :=
+  xmlLiteralCps attr row.1 != some [row.1]
 
 /-! ## colours -/
 
